@@ -200,7 +200,7 @@ EndOfFile ==
   /\ err = "" /\ ph # "end" /\ Recs[l].kind = "file" /\ i = Len(B)
   /\ IF EndProblem # "" THEN err' = EndProblem /\ ph' = ph ELSE err' = err /\ ph' = "end"
   /\ UNCHANGED <<l, i, k, fmt, ntrks, div, trk, rem, acc, vl, st, need, d1, mt, eot, open, tick, delta, pay, evs>>
-Skipped == Recs[l].kind \in {"skipped", "nofile"} /\ ph # "end" /\ ph' = "end"
+Skipped == Recs[l].kind \in {"skipped", "nofile", "listing"} /\ ph # "end" /\ ph' = "end"
            /\ UNCHANGED <<l, i, k, fmt, ntrks, div, trk, rem, acc, vl, st, need, d1, mt, eot, open, tick, delta, pay, evs, err>>
 \* terminal stuttering, so that TLC's deadlock check flags any file the recogniser gets stuck in
 Finished == (ph = "end" \/ err # "") /\ UNCHANGED vars
